@@ -41,7 +41,7 @@ def run_positive(c, cases, docs):
             c.violation("panic", "a legal builder call sequence panicked: %s" % p.stderr[-300:], rp); return
         for l in p.stdout.splitlines():
             o = json.loads(l); got[o["i"]] = o["res"]
-        os.unlink(exe)
+        vlib.discard(exe)
     c.add("programs", len(jobs)); c.add("evaluations", len(cases)); c.add("traces_validated_against_impl", len(cases))
     bad = [(i, cs) for i, cs in enumerate(cases) if got.get(i) != cs["res"]]
     c.sample({"sequence": B.expr(cases[len(cases) // 2]), "expected": cases[len(cases) // 2]["res"]})
